@@ -85,7 +85,31 @@ func ruleC28(c *Ctx) {
 			j = strings.ReplaceAll(j, "local:XPub()", "xpub")     // private side: xpub := xprv.XPub()
 			return j
 		}
-		c.Require("sibling", "chainkd: private and public non-hardened derivation feed HMAC-SHA512 identically", norm(a) == norm(b) && len(a) >= 6, "private: %s | public: %s", norm(a), norm(b))
+		okSib := norm(a) == norm(b) && len(a) >= 6
+		dSib := "private: " + norm(a) + " | public: " + norm(b)
+		if !okSib && len(a) == 0 && len(b) == 0 {
+			// neither side feeds an HMAC itself: identical by construction if both hand the job to the
+			// same helper (and that helper does feed one)
+			hm := func(f *ssa.Function) map[*ssa.Function]bool {
+				out := map[*ssa.Function]bool{}
+				for _, ci := range allCalls(orig(f), false) {
+					if g := staticCallee(ci); g != nil && inModule(g) && len(callsTo(g, false, "crypto/hmac.New")) > 0 && len(hmacShape(g)) >= 4 {
+						out[g] = true
+					}
+				}
+				return out
+			}
+			ha, hb := hm(nh), hm(pc)
+			same := len(ha) == 1 && len(hb) == 1
+			for g := range ha {
+				if !hb[g] {
+					same = false
+				}
+				dSib = "both delegate to " + fname(g)
+			}
+			okSib = same
+		}
+		c.Require("sibling", "chainkd: private and public non-hardened derivation feed HMAC-SHA512 identically", okSib, "%s", dSib)
 		okx := len(callsTo(nh, false, "(crypto/ed25519/chainkd.XPrv).XPub")) == 1
 		c.Require("dataflow", fname(nh)+": the HMAC is keyed and fed from xprv.XPub()", okx, "xpub := xprv.XPub()")
 	}
@@ -174,7 +198,12 @@ func ruleC28(c *Ctx) {
 		okm := false
 		for _, s := range callsTo(dk, false, "bytes.Equal") {
 			a := s.Common().Args
-			okm = mentions(a[0], callsKey("crypto.Sha256"), 3, nil) && mentions(a[0], callsKey("blockchain/pseudohsm.getKDFKey"), 6, nil) && mentions(a[1], readsField("blockchain/pseudohsm.cryptoJSON", "MAC"), 6, nil)
+			for _, o := range [][2]int{{0, 1}, {1, 0}} { // bytes.Equal is symmetric
+				x, y := a[o[0]], a[o[1]]
+				if mentions(x, callsKey("crypto.Sha256"), 3, nil) && mentions(x, callsKey("blockchain/pseudohsm.getKDFKey"), 6, nil) && mentions(y, readsField("blockchain/pseudohsm.cryptoJSON", "MAC"), 6, nil) {
+					okm = true
+				}
+			}
 		}
 		c.Require("dataflow", fname(dk)+": the MAC is computed from the password-derived key and the ciphertext, compared with the stored MAC", okm, "bytes.Equal(Sha256(derivedKey[16:32], cipherText), mac)")
 		for _, g := range []string{"Version", "Type", "Cipher"} {
@@ -244,19 +273,25 @@ func ruleC29(c *Ctx) {
 			if !ri.Success || isNilConst(ri.Ret.Results[0]) {
 				continue
 			}
-			n++
-			have := factsAt(ri.Ret)
-			if !have["call:consensus.IsBech32SegwitPrefix = true"] || !have["call:common.decodeSegWitAddress#2 == nil"] {
-				ok = false
-			}
-			v0 := false
-			for ft := range have {
-				if strings.HasSuffix(ft, "== 0") && strings.Contains(ft, "decodeSegWitAddress#0") {
-					v0 = true
+			// every non-nil origin of the returned address (φ-inputs with their predecessor's facts)
+			for _, og := range valueOrigins(canon(ri.Ret.Results[0]), ri.Ret) {
+				if isNilConst(og.val) {
+					continue
 				}
-			}
-			if !v0 {
-				ok = false
+				n++
+				have := factsAt(og.at)
+				if !have["call:consensus.IsBech32SegwitPrefix = true"] || !have["call:common.decodeSegWitAddress#2 == nil"] {
+					ok = false
+				}
+				v0 := false
+				for ft := range have {
+					if strings.HasSuffix(ft, "== 0") && strings.Contains(ft, "decodeSegWitAddress#0") {
+						v0 = true
+					}
+				}
+				if !v0 {
+					ok = false
+				}
 			}
 		}
 		c.Require("mustpass", fname(da)+": an address is returned only for this network's prefix, witness version 0 and a decoded program", ok && n >= 2, "%d address return(s)", n)
@@ -347,6 +382,18 @@ func ruleC30(c *Ctx) {
 					seq = append(seq, "left")
 				} else if paramN(1)(ci.Common().Value) {
 					seq = append(seq, "right")
+				} else {
+					// `for i := range nodes { nodes[i].WriteTo(h) }` over the literal argument list
+					// {left, right} of a variadic helper: elements are written in index order
+					for _, el := range ascendingLiteralElems(ci.Common().Value) {
+						if paramN(0)(el) {
+							seq = append(seq, "left")
+						} else if paramN(1)(el) {
+							seq = append(seq, "right")
+						} else {
+							seq = append(seq, "?")
+						}
+					}
 				}
 			}
 		}
@@ -404,25 +451,39 @@ func ruleC30(c *Ctx) {
 	vp := c.Func(pTypes, "validateMerkleTreeProof")
 	if vp != nil {
 		ok := false
+		nGood, nBad := 0, 0
 		for _, b := range vp.Blocks {
 			if ret, isR := b.Instrs[len(b.Instrs)-1].(*ssa.Return); isR {
-				v := ret.Results[0]
-				// root == merkleRoot && merkleHashes.Len() == 0 : phi(false, len==0) under fact root == merkleRoot
-				if phi, isP := v.(*ssa.Phi); isP {
-					for _, e := range phi.Edges {
-						if bo, isB := e.(*ssa.BinOp); isB && bo.Op.String() == "==" && mentions(bo, callsKey("(*container/list.List).Len"), 3, nil) {
-							have := factsAt(bo)
-							for ft := range have {
-								if strings.Contains(ft, "call:"+pTypes+".getMerkleRootByProof == param#3") || strings.Contains(ft, "param#3 == call:"+pTypes+".getMerkleRootByProof") {
-									ok = true
-								}
+				// root == merkleRoot && merkleHashes.Len() == 0 — as one expression (φ(false, len==0) under the
+				// fact root == merkleRoot) or as `if root != merkleRoot { return false }; return len == 0`:
+				// every origin of the result that is not the constant false must be the emptiness test,
+				// evaluated where the root equality is known
+				for _, og := range valueOrigins(canon(ret.Results[0]), ret) {
+					if k, isK := og.val.(*ssa.Const); isK && k.Value != nil && k.Value.ExactString() == "false" {
+						continue
+					}
+					good := false
+					if bo, isB := og.val.(*ssa.BinOp); isB && bo.Op.String() == "==" && mentions(bo, callsKey("(*container/list.List).Len"), 3, nil) {
+						have := factsAt(bo)
+						for ft := range factsAt(og.at) {
+							have[ft] = true
+						}
+						for ft := range have {
+							if strings.Contains(ft, "call:"+pTypes+".getMerkleRootByProof == param#3") || strings.Contains(ft, "param#3 == call:"+pTypes+".getMerkleRootByProof") {
+								good = true
 							}
 						}
+					}
+					if good {
+						nGood++
+					} else {
+						nBad++
 					}
 				}
 			}
 		}
-		c.Require("facts", fname(vp)+": true only if the recomputed root equals the given root and every related leaf was consumed", ok, "root == merkleRoot && merkleHashes.Len() == 0")
+		ok = nGood >= 1 && nBad == 0
+		c.Require("facts", fname(vp)+": true only if the recomputed root equals the given root and every related leaf was consumed", ok, "root == merkleRoot && merkleHashes.Len() == 0 (%d conforming, %d other non-false result origins)", nGood, nBad)
 	}
 	gp := c.Func(pTypes, "getMerkleRootByProof")
 	if gp != nil {
@@ -440,7 +501,7 @@ func ruleC30(c *Ctx) {
 		c.Require("facts", fname(gp)+": a related leaf is consumed only when the proof hash equals it", ok, "merkleHashes.Remove under hash == relatedHash")
 		// in the leaf case, the proof hash is consumed only on equality too
 		okh := true
-		sc := c.ScopeIf(gp, "leaf flag", 0, constEq(c, pTypes, "FlagTxLeaf"))
+		sc := c.ScopeWhen(gp, "leaf flag", "assert:uint8 == "+c.constVal(pTypes, "FlagTxLeaf"))
 		if sc.F != nil {
 			in := scopeBlocks(sc)
 			for _, s := range callsTo(gp, false, "(*container/list.List).Remove") {
